@@ -5,4 +5,4 @@ patch=$1
 git -C /repo status --short | grep -q . && { echo "/repo not clean"; exit 2; }
 git -C /repo apply "$patch" || { echo "patch does not apply"; exit 2; }
 trap 'git -C /repo checkout -- . ; git -C /repo clean -fdq' EXIT
-/verif/bin/kzcheck -all | cut -c1-300
+/verif/bin/kzcheck -all | cut -c1-400
